@@ -248,6 +248,56 @@ def replay_bids(rec, root, idx, do_fs, words=WORDS):
     return n, out, True
 
 
+def replay_layout(rec, root, idx, do_fs, words=WORDS):
+    """a history of look-ups on ONE BidsLayout (and one file object per family member)"""
+    from rsatoolbox.io.bids import BidsLayout, BidsMriFile
+    out = []
+    base = os.path.join(root, f'l{idx}')
+    layout = BidsLayout(base, nibabel=Mock())
+    paths = [to_str(p, words).replace('/', os.sep) for p in rec['paths']]
+    files = [BidsMriFile(p, layout, None) for p in paths]
+    if do_fs:      # every family member has its own sidecar / events / table files
+        for e, p in zip(rec['files'], paths):
+            stem = p[:-len('.' + _ent_str(e, 'ext', words))]
+            _write(os.path.join(base, stem + '.json'), json.dumps({'who': stem + '.json'}))
+    n = 0
+    hist = []
+    try:
+        for k, st in enumerate(rec['hist']):
+            kind = st['kind']
+            d = words[st['d']] if st['d'] else None
+            s = words[st['s']] if st['s'] else None
+            wantp = to_str(st['path'], words).replace('/', os.sep)
+            hist.append({'file': paths[st['f'] - 1], 'lookup': kind, 'desc': d, 'suffix': s, 'want': wantp})
+            case = {'history_on_one_layout': list(hist), 'step': k + 1}
+            try:
+                r = _call_lookup(layout, files[st['f'] - 1], kind, d, s)
+                gotp = r.relpath
+                who = files[st['f'] - 1].get_meta()['who'] if (do_fs and kind == 'meta') else None
+            except Exception as ex:
+                out.append(('viol', f'C20/b/{kind}/history/raises/{_exc(ex)}', str(ex), case))
+                break
+            n += 1
+            hist[-1]['got'] = gotp
+            if gotp != wantp:
+                wante = {e: _ent_str(st['ent'], e, words) for e in ENTS}
+                gote = _norm_ext(_attrs(r))
+                diff = [e for e in ENTS if gote[e] != wante[e]]
+                out.append(('viol', f'C20/b/{kind}/history/' + ('+'.join(diff) if diff else 'path'),
+                            f'step {k + 1} of a look-up history on one layout object: the answer depends on what '
+                            f'was looked up before (entities the look-up does not name differ from the base file)',
+                            case))
+                break
+            if who is not None and who != wantp:
+                out.append(('viol', f'C20/b/{kind}/history/file', f'step {k + 1}: get_meta() read the sidecar of '
+                            f'another file', {**case, 'read': who}))
+                break
+    finally:
+        if do_fs:
+            shutil.rmtree(base, ignore_errors=True)
+    return n, out, True
+
+
 _ALNUM = 'abcdefghijklmnopqrstuvwxyzABCDEFGHIJKLMNOPQRSTUVWXYZ0123456789'
 _ADVERSARIAL = ['sub', 'ses', 'task', 'run', 'space', 'desc', 'derivatives', 'json', 'tsv', 'events', '0', '00',
                 'Sub', 'subses', 'x']
@@ -296,6 +346,45 @@ def record_bids(rng, lx):
         ev['looks'].append({'kind': kind, 'd': d if sib else 0, 's': s if sib else 0,
                             'path': lx.lex(r.relpath.replace(os.sep, '/'))})
     return ev
+
+
+def record_layout(rng):
+    """a random look-up sequence on ONE layout over a family of files differing in one entity each"""
+    from rsatoolbox.io.bids import BidsLayout, BidsMriFile
+    lx = Lexer()
+    layout = BidsLayout('/nowhere', nibabel=Mock())
+    base = {k: (_rand_word(rng) if (k in REQUIRED or rng.random() < 0.8) else None) for k in ENTS}
+    base['ext'] = [_rand_word(rng, False) for _ in range(int(rng.integers(1, 3)))]
+    fam = [dict(base)]
+    for k in ENTS:
+        v = dict(base)
+        v[k] = [_rand_word(rng, False)] if k == 'ext' else _rand_word(rng, False)
+        fam.append(v)
+        if k not in REQUIRED and base[k]:
+            v = dict(base)
+            v[k] = None
+            fam.append(v)
+    fam = [fam[0]] + [fam[int(j)] for j in rng.permutation(np.arange(1, len(fam)))[:6]]
+    files, paths, objs = [], [], []
+    for ent in fam:
+        strs = {k: ('.'.join(v) if k == 'ext' else v) for k, v in ent.items()}
+        p = layout._replace(Mock(), dict(strs))
+        objs.append(BidsMriFile(p, layout, None))
+        files.append({k: ([lx.word(w, False) for w in v] if k == 'ext' else (lx.word(v, False) if v else 0))
+                      for k, v in ent.items()})
+        paths.append(lx.lex(p.replace(os.sep, '/')))
+    dw, sw = _rand_word(rng), _rand_word(rng)
+    d, s = lx.word(dw, False), lx.word(sw, False)
+    steps = []
+    for _ in range(int(rng.integers(6, 13))):
+        f = int(rng.integers(len(fam)))
+        kinds = ['meta', 'meta', 'events', 'tsib', 'msib'] + (['key'] if fam[f]['desc'] else [])
+        kind = kinds[int(rng.integers(len(kinds)))]
+        r = _call_lookup(layout, objs[f], kind, dw, sw)
+        sib = kind in ('tsib', 'msib')
+        steps.append({'f': f + 1, 'kind': kind, 'd': d if sib else 0, 's': s if sib else 0,
+                      'path': lx.lex(r.relpath.replace(os.sep, '/'))})
+    return {'k': 'layout', 'files': files, 'paths': paths, 'steps': steps}
 
 
 # ================================================================== (c) Meadows
@@ -427,25 +516,35 @@ def _replay_meadows(rec, root, idx, words=WORDS):
         out.append(('viol', f'C20/c/{cls}{pv}/raises/{_exc(ex)}', f'load_rdms raises {ex}', case))
         return n + 1, out, True
     n += 1
-    want = {'conds': [STIMS[s] for s in x['conds']], 'vec': [[float(v) for v in r] for r in x['vec']],
-            'experiment_name': words[x['exp']]}
-    if shape == 'mp1t':
-        want['participant'] = parts
-        want['task'] = [to_str(t, words) for t in x['task']]
-    else:
-        want['participant'] = [to_str(p, words) for p in x['participant']]
-    if shape == '1pmt':
-        want['task'] = [f'ma{p - 1}' for p in x['tpos']]
-    if shape != 'mp1t':
-        want['task_index'] = list(x['task_index'])
-    for k, label in (('conds', 'conds'), ('vec', 'values'), ('participant', 'participant'), ('task', 'task'),
-                     ('task_index', 'task_index'), ('experiment_name', 'experiment_name')):
-        if k in want and g[k] != want[k]:
-            what = {'conds': 'stimulus labels differ from the file (in file order / alphabetical order on request)',
-                    'vec': 'a dissimilarity is not attached to the two stimuli it belongs to in the file'}.get(
-                        k, f'{label} descriptor does not match the file and its name')
-            out.append(('viol', f'C20/c/{cls}{pv}/{label}', what, {**case, 'got': g, 'want': want}))
-            break
+    def wanted(y):
+        w = {'conds': [STIMS[s] for s in x['conds']], 'vec': [[float(v) for v in r] for r in y['vec']],
+             'experiment_name': words[x['exp']]}
+        if shape == 'mp1t':
+            w['participant'] = parts
+            w['task'] = [to_str(t, words) for t in x['task']]
+        else:
+            w['participant'] = [to_str(p, words) for p in y['participant']]
+        if shape == '1pmt':
+            w['task'] = [f'ma{p - 1}' for p in y['tpos']]
+        if shape != 'mp1t':
+            w['task_index'] = list(y['task_index'])
+        return w
+    # a json task that lists the same stimuli in another order may be left out (the loader documents a
+    # warning) or brought into the common order; anything else is a mismatch
+    cands = [wanted(x)]
+    if x['alt']['tpos'] != x['tpos']:
+        cands.append(wanted({**x, **x['alt']}))
+    if not any(all(g[k] == w[k] for k in w) for w in cands):
+        want = next((w for w in cands if w.get('task') == g.get('task')), cands[0])
+        ro = '/reordered-task' if len(cands) > 1 else ''
+        for k, label in (('conds', 'conds'), ('participant', 'participant'), ('task', 'task'),
+                         ('task_index', 'task_index'), ('vec', 'values'), ('experiment_name', 'experiment_name')):
+            if k in want and g[k] != want[k]:
+                what = {'conds': 'stimulus labels differ from the file (in file order / alphabetical order on request)',
+                        'vec': 'a dissimilarity is not attached to the two stimuli it belongs to in the file'}.get(
+                            k, f'{label} descriptor does not match the file and its name')
+                out.append(('viol', f'C20/c/{cls}{pv}{ro}/{label}', what, {**case, 'got': g, 'want': want}))
+                break
     return n, out, True
 
 
@@ -479,8 +578,10 @@ def record_meadows(rng, root, idx, petnames):
     elif shape == '1pmt':
         mid = [nick()]
         nr = int(rng.integers(1, 5))
-        layout = [1] * nr + [0] * int(rng.integers(0, 4))
+        layout = [int(v) for v in rng.choice([1, 1, 2, 3], size=nr)] + [0] * int(rng.integers(0, 4))
         layout = [int(v) for v in rng.permutation(layout)]
+        first = next(k for k, v in enumerate(layout) if v)
+        layout[first] = 1                      # the first multi-arrangement task defines the order
     else:
         t = _rand_word(rng, False)
         while t.isdigit():
@@ -498,8 +599,14 @@ def record_meadows(rng, root, idx, petnames):
 
     def tok(r, a, b):
         return 100 * r + 10 * min(a, b) + max(a, b)
-    files = [{'order': order, 'vec': [tok(r + 1, order[a], order[b]) for a in range(n) for b in range(a + 1, n)]}
-             for r in range(nr)]
+    kinds = [v for v in layout if v] if shape == '1pmt' else [1] * nr
+
+    def forder(kind):
+        return order[::-1] if kind == 2 else (order[:-1] + [n + 1] if kind == 3 else order)
+    stim[n + 1] = '~' + names[0]               # the extra stimulus of a task with another stimulus set
+    files = [{'order': forder(kd), 'vec': [tok(r + 1, forder(kd)[a], forder(kd)[b])
+                                           for a in range(n) for b in range(a + 1, n)]}
+             for r, kd in enumerate(kinds)]
     d = os.path.join(root, f'r{idx}')
     os.makedirs(d, exist_ok=True)
     path = os.path.join(d, fname)
@@ -636,6 +743,8 @@ def _dm_inputs(i, seed):
     if i['nconf'] or seed % 2:
         cf = pandas.DataFrame({f'conf{j}': rng.normal(size=i['nvols']) * (j + 1) + 3 * j
                                for j in range(i['nconf'])}, index=range(i['nvols']))
+        for j in i.get('nan', []):             # fmriprep *_derivative1 columns: first volume is n/a
+            cf.iloc[0, j - 1] = np.nan
     return ev, cf
 
 
@@ -648,6 +757,7 @@ def _dm_measure(i, seed):
     dm = np.asarray(dm)
     g = {'shape': list(dm.shape), 'ncols': int(dm.shape[1]) if dm.ndim == 2 else -1,
          'mask': [int(bool(m)) for m in np.asarray(mask).tolist()], 'dof': int(dof),
+         'masklen': int(np.asarray(mask).size),
          'dof_is_int': float(dof) == int(dof)}
     conds = list(dict.fromkeys(i['ev']))
     npred = sum(g['mask'])
@@ -672,11 +782,12 @@ def _dm_measure(i, seed):
     conf_ok = True
     if cf is not None and dm.ndim == 2 and len(g['mask']) == dm.shape[1]:
         cc = dm[:, [k for k, m in enumerate(g['mask']) if not m]]
-        conf_ok = cc.shape[1] == cf.shape[1]
-        for j in range(min(cc.shape[1], cf.shape[1])):
+        kept = [j for j in range(cf.shape[1]) if (j + 1) not in i.get('nan', [])]   # columns without n/a
+        conf_ok = cc.shape[1] == len(kept)
+        for col, j in enumerate(kept[:cc.shape[1]]):
             a = cf.values[:, j]
             z = (a - a.mean()) / np.ptp(a)
-            y = cc[:, j]
+            y = cc[:, col]
             slope = float(np.dot(y - y.mean(), z) / np.dot(z, z))
             if not (slope > 0 and np.abs((y - y.mean()) - slope * z).max() < 1e-9 * max(1.0, abs(slope))):
                 conf_ok = False
@@ -694,7 +805,11 @@ def replay_dm(rec, seed):
         return 1, [('viol', f'C20/e/design/raises/{_exc(ex)}', str(ex), {'i': i})], True
     case = {**case, 'got': g, 'want': x}
     if g['ncols'] != x['ncols'] or g['shape'] != [i['nvols'], x['ncols']]:
-        out.append(('viol', 'C20/e/design/ncols', 'not one column per condition plus one per confound', case))
+        out.append(('viol', 'C20/e/design/ncols', 'not one column per condition plus one per confound '
+                    '(confound columns with n/a values are dropped)', case))
+    elif g['masklen'] != g['ncols']:
+        out.append(('viol', 'C20/e/design/mask-length', 'the predictor/confound mask does not have one flag per '
+                    'column of the matrix', case))
     elif g['mask'] != x['mask']:
         out.append(('viol', 'C20/e/design/mask', 'predictor/confound flags differ', case))
     else:
@@ -711,7 +826,7 @@ def replay_dm(rec, seed):
             out.append(('viol', 'C20/e/design/centre', 'a condition column is not centred', case))
         if not g['conf']:
             out.append(('viol', 'C20/e/design/confound', 'a flagged confound column is not the confound', case))
-    if g['dof'] != x['dof'] or not g['dof_is_int']:
+    if g['dof'] != i['nvols'] - g['ncols'] or g['dof'] != x['dof'] or not g['dof_is_int']:
         out.append(('viol', 'C20/e/design/dof', 'dof differs from volumes - columns', case))
     return 1 + len(set(i['ev'])), out, True
 
@@ -720,9 +835,10 @@ def record_dm(rng):
     nc = int(rng.integers(1, 4))
     ev = list(range(1, nc + 1)) + [int(v) for v in rng.integers(1, nc + 1, size=int(rng.integers(0, 4)))]
     ev = [int(v) for v in rng.permutation(ev)]
-    i = {'ev': ev, 'tr': int(rng.integers(1, 4)), 'nvols': int(rng.integers(14, 41)), 'nconf': int(rng.integers(0, 4))}
+    i = {'ev': ev, 'tr': int(rng.integers(1, 4)), 'nvols': int(rng.integers(14, 41)), 'nconf': int(rng.integers(0, 5))}
+    i['nan'] = sorted(int(j) + 1 for j in np.flatnonzero(rng.random(i['nconf']) < 0.35))
     g, case = _dm_measure(i, int(rng.integers(0, 1000)))
-    return {'k': 'dm', 'i': i, 'got': {k: g[k] for k in ('ncols', 'mask', 'dof', 'colcond', 'norm', 'conf')},
+    return {'k': 'dm', 'i': i, 'got': {k: g[k] for k in ('ncols', 'mask', 'masklen', 'dof', 'colcond', 'norm', 'conf')},
             'text': json.dumps(case['events'])[:300]}
 
 
@@ -838,7 +954,9 @@ def record_spm(rng):
 def replay_line(line, root, idx, seed, fs_every=8, mat_every=0):
     rec = json.loads(line)
     sec = rec['sec']
-    if sec == 'bids':
+    if sec == 'layout':
+        n, out, nontriv = replay_layout(rec, root, idx, bool(fs_every) and idx % max(1, fs_every // 2) == 0)
+    elif sec == 'bids':
         n, out, nontriv = replay_bids(rec, root, idx, rec['valid'] and fs_every and idx % fs_every == 0)
     elif sec == 'meadows':
         n, out, nontriv = replay_meadows(rec, root, idx)
